@@ -1,5 +1,95 @@
-(* placeholder while the pipeline is brought up *)
-From QT Require Import C14.Spec.
-Example C14_placeholder : run 4 init [] = Some init.
-Proof. reflexivity. Qed.
-Print Assumptions C14_placeholder.
+(* C14 — property theorems.  Statements only: each is closed by [exact] of a lemma proved elsewhere.
+   [run cap init tr = Some s] : the trace [tr] (of any length) is accepted by the model of one port's I/O with queue
+   capacity [cap], from a freshly constructed port, and leads to state [s].  The projections of a trace (submitted, failed,
+   took, driver_writes, delivers, surviving, outstanding, count, excl ...) are defined in C14/Spec.v on the events alone. *)
+From QT Require Import C14.Spec C14.ExclThm C14.QueueThm C14.MainThm C14.ResultThm.
+From Coq Require Import Permutation.
+Open Scope nat_scope.
+
+(* at any point of any accepted trace at most one driver read of the port is in flight: #ReadStart - #ReadEnd is 0 or 1 *)
+Theorem C14_reads_exclusive :
+  forall cap tr s, run cap init tr = Some s ->
+    forall pre post, tr = pre ++ post -> count is_rend pre <= count is_rstart pre <= count is_rend pre + 1.
+Proof. exact reads_never_overlap. Qed.
+Print Assumptions C14_reads_exclusive.
+
+(* ... and at most one driver write (write loop or the direct write of load_from_data) *)
+Theorem C14_writes_exclusive :
+  forall cap tr s, run cap init tr = Some s ->
+    forall pre post, tr = pre ++ post -> count is_wend pre <= count is_wstart pre <= count is_wend pre + 1.
+Proof. exact writes_never_overlap. Qed.
+Print Assumptions C14_writes_exclusive.
+
+(* the same on states *)
+Theorem C14_in_flight_bounds :
+  forall cap tr s, run cap init tr = Some s -> reads_in_flight s <= 1 /\ writes_in_flight s <= 1.
+Proof. exact in_flight_bounds. Qed.
+Print Assumptions C14_in_flight_bounds.
+
+(* the values started at the driver, followed by the values still pending, are the submitted values minus exactly the
+   tickets failed with QueueFull, in submission order *)
+Theorem C14_write_order :
+  forall cap tr s, run cap init tr = Some s ->
+    map fst (surviving tr) = driver_writes tr ++ pending_values s.
+Proof. exact write_order. Qed.
+Print Assumptions C14_write_order.
+
+(* a submission makes a ticket fail with QueueFull only when cap tickets are queued, and that ticket is the oldest of them;
+   when fewer are queued (or the queue is unbounded) nothing fails *)
+Theorem C14_drop_only_at_capacity_oldest_first :
+  forall cap tr s pre v t d post,
+    run cap init tr = Some s -> tr = pre ++ WriteSubmit v t d :: post ->
+    match d with
+    | None => cap = 0 \/ List.length (outstanding pre) < cap
+    | Some t0 => 0 < cap /\ List.length (outstanding pre) = cap /\ hd_error (outstanding pre) = Some t0
+    end.
+Proof. exact drop_rule. Qed.
+Print Assumptions C14_drop_only_at_capacity_oldest_first.
+
+(* no ticket is lost or duplicated: the tickets issued so far are 0..n-1 and each is, exactly once, resolved (written or
+   failed), in flight at the driver, or queued; the tickets resolved with QueueFull are exactly the dropped ones *)
+Theorem C14_drop_notified :
+  forall cap tr s, run cap init tr = Some s ->
+    map snd (submitted tr) = seq 0 (next s) /\
+    Permutation (map snd (submitted tr)) (map fst (results s) ++ in_flight_tickets s ++ map snd (write_q s)) /\
+    NoDup (map fst (results s) ++ in_flight_tickets s ++ map snd (write_q s)) /\
+    (forall t, In (t, TQueueFull) (results s) <-> In t (failed tr)).
+Proof. exact tickets_partition. Qed.
+Print Assumptions C14_drop_notified.
+
+(* what submitters are told: the recorded result of their ticket; QueueFull exactly for dropped tickets; never twice *)
+Theorem C14_submitters_told :
+  forall cap tr s, run cap init tr = Some s ->
+    (forall t, In t (failed tr) -> In (t, TQueueFull) (results s)) /\
+    (forall t r, In (t, r) (delivers tr) -> In (t, r) (results s) /\ (r = TQueueFull <-> In t (failed tr))) /\
+    NoDup (map fst (delivers tr)).
+Proof. exact drop_notified. Qed.
+Print Assumptions C14_submitters_told.
+
+(* ... and otherwise the result of their own driver call (k-th dequeued ticket, k-th driver result) *)
+Theorem C14_told_own_result :
+  forall cap tr s, run cap init tr = Some s ->
+    forall t r, In (t, r) (delivers tr) -> r <> TQueueFull -> lookup t (driver_results tr) = Some r.
+Proof. exact told_own_result. Qed.
+Print Assumptions C14_told_own_result.
+
+(* the executable specification that is run against the implementation holds of every accepted trace *)
+Theorem C14_spec_holds_of_accepted :
+  forall cap tr s, run cap init tr = Some s -> spec_code cap false tr = 0.
+Proof. exact spec_holds_of_accepted. Qed.
+Print Assumptions C14_spec_holds_of_accepted.
+
+(* non-vacuity: capacity 2; three submissions while the first write is at the driver, the third overflows and ticket 1 (the
+   oldest queued) fails; a read waits behind a read; the driver sees 10, 13 *)
+Example C14_nonvacuous :
+  let tr := [ReadRequest SrcPass; ReadStart SrcPass; ReadRequest SrcLoad;
+             WriteSubmit 10 0 None; WriteTake 10 0; WriteStart 10;
+             WriteSubmit 11 1 None; WriteSubmit 12 2 None; WriteSubmit 13 3 (Some 1%nat); Deliver 1 TQueueFull;
+             ReadEnd SrcPass OVal; ReadStart SrcLoad;
+             WriteEnd WOk; Deliver 0 TOk; LoopResume; WriteTake 12 2; WriteStart 12; Snap true true 1]%Z in
+  exists s, run 2 init tr = Some s
+    /\ failed tr = [1] /\ driver_writes tr = [10; 12]%Z /\ pending_values s = [13]%Z
+    /\ map fst (surviving tr) = [10; 12; 13]%Z /\ reads_in_flight s = 1 /\ writes_in_flight s = 1
+    /\ run 2 init (tr ++ [ReadStart SrcPass]) = None /\ run 2 init (tr ++ [DirectStart 5%Z]) = None
+    /\ run 2 init (tr ++ [WriteTake 13 3]) = None.
+Proof. eexists. vm_compute. repeat split. Qed.
